@@ -105,6 +105,28 @@ pub fn run_case(ctx: &mut CaseCtx) -> CaseResult {
     let n_after = *rng.pick(&[0u64, 1, 7, 150]);
     let threads = if rng.chance(1, 4) { rng.range(2, 4) as usize } else { 1 };
     let slow = wmode.is_async() && rng.chance(2, 3);
+    // an additional file writer "aux" (own directory, own write mode): about a third of the
+    // records is addressed to it; flush()/shutdown()/drop must cover it like the primary output
+    let aux_mode: Option<WMode> = if rng.chance(1, 3) {
+        Some(match rng.below(5) {
+            0 => WMode::Direct,
+            1 => WMode::BufDont(300),
+            2 => WMode::BufDont(8192),
+            3 => WMode::BufDont(1 << 20),
+            _ => WMode::Async { pool: 2, msg: 200, flush_ms: 0 },
+        })
+    } else {
+        None
+    };
+    let aux_rotating = rng.chance(1, 2);
+    let aux_names = NameCfg {
+        dir: ctx.dir.join("aux"),
+        basename: "aux".into(),
+        discr: None,
+        start_ts: None,
+        suffix: Some("log".into()),
+        naming: if aux_rotating { NamingK::Numbers } else { NamingK::NoRotation },
+    };
     let names = NameCfg {
         dir: ctx.dir.join("out"),
         basename: "c04".into(),
@@ -137,8 +159,9 @@ pub fn run_case(ctx: &mut CaseCtx) -> CaseResult {
         l2: true,
     };
     let mut res = CaseResult::new(format!(
-        "{out:?}|{}|{ending:?}|before{}|after{}|t{threads}|{}",
+        "{out:?}|{}{}|{ending:?}|before{}|after{}|t{threads}|{}",
         wmode.label(),
+        aux_mode.map_or(String::new(), |m| format!("+aux:{}", m.label())),
         match n_before {
             0..=5 => "small",
             6..=50 => "mid",
@@ -172,6 +195,35 @@ pub fn run_case(ctx: &mut CaseCtx) -> CaseResult {
         }
         l
     };
+    let lg = match aux_mode {
+        None => lg,
+        Some(m) => {
+            let mut b = flexi_logger::writers::FileLogWriter::builder(
+                flexi_logger::FileSpec::default()
+                    .directory(&aux_names.dir)
+                    .basename("aux")
+                    .suppress_timestamp()
+                    .suffix("log"),
+            )
+            .format(flw::fmt_raw)
+            .write_mode(m.to_write_mode());
+            if aux_rotating {
+                b = b.rotate(
+                    flexi_logger::Criterion::Size(500),
+                    flexi_logger::Naming::Numbers,
+                    flexi_logger::Cleanup::Never,
+                );
+            }
+            match b.try_build() {
+                Ok(w) => lg.add_writer("aux", Box::new(w)),
+                Err(e) => {
+                    res.violate("build-failed", "C04/build-failed/aux", format!("{e:?}"));
+                    ctl::uninstall();
+                    return res;
+                }
+            }
+        }
+    };
     let (boxed, handle) = match lg.build() {
         Ok(x) => x,
         Err(e) => {
@@ -182,34 +234,43 @@ pub fn run_case(ctx: &mut CaseCtx) -> CaseResult {
     };
     let boxed: Arc<Box<dyn log::Log>> = Arc::new(boxed);
     let run = ctx.case;
-    // next sequence number per thread
-    let mut next: Vec<u64> = vec![0; threads];
+    // next sequence number per thread: [0, threads) for the primary output, [threads, 2*threads)
+    // for the records of the same threads that are addressed to the additional writer
+    let mut next: Vec<u64> = vec![0; 2 * threads];
+    let has_aux = aux_mode.is_some();
     let log_batch = |boxed: &Arc<Box<dyn log::Log>>, next: &mut Vec<u64>, n: u64, rng: &mut Rng| {
-        if threads == 1 {
-            for _ in 0..n {
-                let m = flw::msg_id(run, 0, next[0], rng.usize(40));
-                next[0] += 1;
-                flw::with_record(log::Level::Info, "flmon::c04", &m, |r| boxed.log(r));
-            }
-        } else {
-            let mut joins = Vec::new();
-            for (t, nx) in next.iter().enumerate() {
-                let b = Arc::clone(boxed);
-                let start = *nx;
-                let mut trng = rng.fork();
-                joins.push(std::thread::spawn(move || {
-                    for s in start..start + n {
-                        let m = flw::msg_id(run, t as u64, s, trng.usize(40));
+        let mut joins = Vec::new();
+        for t in 0..threads {
+            let b = Arc::clone(boxed);
+            let (mut s_main, mut s_aux) = (next[t], next[threads + t]);
+            let mut trng = rng.fork();
+            let mut work = move || {
+                for _ in 0..n {
+                    if has_aux && trng.chance(1, 3) {
+                        let m = flw::msg_id(run, (threads + t) as u64, s_aux, trng.usize(40));
+                        s_aux += 1;
+                        flw::with_record(log::Level::Info, "{aux}", &m, |r| b.log(r));
+                    } else {
+                        let m = flw::msg_id(run, t as u64, s_main, trng.usize(40));
+                        s_main += 1;
                         flw::with_record(log::Level::Info, "flmon::c04", &m, |r| b.log(r));
                     }
-                }));
+                }
+                (s_main, s_aux)
+            };
+            if threads == 1 {
+                let (a, b2) = work();
+                next[t] = a;
+                next[threads + t] = b2;
+            } else {
+                joins.push((t, std::thread::spawn(work)));
             }
-            // join = happens-before for "the log call had completed"
-            for j in joins {
-                let _ = j.join();
-            }
-            for nx in next.iter_mut() {
-                *nx += n;
+        }
+        // join = happens-before for "the log call had completed"
+        for (t, j) in joins {
+            if let Ok((a, b2)) = j.join() {
+                next[t] = a;
+                next[threads + t] = b2;
             }
         }
     };
@@ -236,10 +297,13 @@ pub fn run_case(ctx: &mut CaseCtx) -> CaseResult {
                 Err(_) => Vec::new(),
             }
         };
-        match check_stream(&content, run, expected, b"\n") {
+        let mut exp_main = expected.to_vec();
+        for e in exp_main.iter_mut().skip(threads) {
+            *e = 0;
+        }
+        match check_stream(&content, run, &exp_main, b"\n") {
             Ok(rep) => {
                 res.count("lines_checked", rep.lines);
-                true
             }
             Err((kind, detail)) => {
                 res.violate(
@@ -247,9 +311,40 @@ pub fn run_case(ctx: &mut CaseCtx) -> CaseResult {
                     format!("C04/{kind}/{facts}{sig_extra}"),
                     format!("{when}: {detail}"),
                 );
-                false
+                return false;
             }
         }
+        // the additional writer; after a mere flush() only a synchronous one is judged
+        if let Some(m) = aux_mode {
+            if when.contains("after flush()") && m.is_async() {
+                return true;
+            }
+            let mut exp_aux = expected.to_vec();
+            for e in exp_aux.iter_mut().take(threads) {
+                *e = 0;
+            }
+            let content = match family::observe(&aux_names).map(|o| o.stream()) {
+                Ok(Ok(s)) => s,
+                Ok(Err(e)) => {
+                    res.violate("unreadable", format!("C04/unreadable/{facts}/aux"), e);
+                    return false;
+                }
+                Err(_) => Vec::new(),
+            };
+            res.count("immediate_reads_of_additional_writer", 1);
+            match check_stream(&content, run, &exp_aux, b"\n") {
+                Ok(rep) => res.count("lines_checked_additional_writer", rep.lines),
+                Err((kind, detail)) => {
+                    res.violate(
+                        "record-left-behind",
+                        format!("C04/{kind}/{facts}/additional-writer:{}{sig_extra}", m.label()),
+                        format!("{when}, additional file writer: {detail}"),
+                    );
+                    return false;
+                }
+            }
+        }
+        true
     };
     log_batch(&boxed, &mut next, n_before, rng);
     let mut handle: Option<LoggerHandle> = Some(handle);
@@ -298,6 +393,7 @@ pub fn run_case(ctx: &mut CaseCtx) -> CaseResult {
             "output": format!("{out:?}"), "write_mode": format!("{wmode:?}"),
             "ending": format!("{ending:?}"), "records_before": n_before, "records_after": n_after,
             "threads": threads, "slow_async_writer": slow,
+            "additional_writer": aux_mode.map(|m| format!("{m:?}, rotating: {aux_rotating}")),
             "naming": cfg.names.naming.label(),
         }));
     }
